@@ -35,6 +35,9 @@ struct Handle {
     epfd: RawFd,
     closed: AtomicBool,
     graveyard: Graveyard,
+    // bytes of the next request that were read together with the previous one; touched only by the one worker
+    // that holds the connection (`in_flight`)
+    carry: std::cell::UnsafeCell<Vec<u8>>,
 }
 
 struct EpollJob {
@@ -50,7 +53,17 @@ impl Task for EpollJob {
         let stream = unsafe { &*(handle.stream_ptr) };
 
         let mut response = ResponseHandle::new(stream);
-        let result = handle_one_request(stream, &mut response, &handle.handler_config);
+        // SAFETY: `in_flight` is set: no other worker runs a job for this connection
+        let carry = unsafe { &mut *handle.carry.get() };
+        let result = loop {
+            let result = handle_one_request(stream, &mut response, &handle.handler_config, carry);
+            // a request that has already been read from the socket (together with the previous one) cannot wait for
+            // the socket to become readable: it is served now
+            match result {
+                Ok(true) if !carry.is_empty() => continue,
+                other => break other,
+            }
+        };
         let keep_alive = *result.as_ref().unwrap_or(&false);
 
         if keep_alive {
@@ -144,6 +157,7 @@ impl Server {
                             fd,
                             closed: AtomicBool::new(false),
                             graveyard: Arc::clone(&graveyard),
+                            carry: std::cell::UnsafeCell::new(Vec::new()),
                         });
                         let handle_ptr = Box::into_raw(handle) as u64;
                         #[cfg(khttp_verif)]
